@@ -454,3 +454,5 @@ def _imputer_history(env, cfg, ctx):
 META['explanation'] += " History group: impute, an update that restructures the instance's own leaf, impute again with the same imputer."
 
 META['explanation'] += ' Special values: one update carries a concrete NaN / NumPy NaN / inf / 0.0 / False / NumPy int in one feature (IEEE routing: NaN <= t is false).'
+
+META['explanation'] += ' The imputer may be built before any data arrives.'
